@@ -77,12 +77,16 @@ pub fn history(r: &Recipe) -> Vec<VecOp> {
                 VecOp::Extend(slice(s, len))
             }
             5 => {
-                let len = match s % 5 {
-                    0 => CAP,
-                    1 => CAP + 1 + (s >> 8) as usize % 3,
-                    2 => est.saturating_sub((s >> 8) as usize % 5),
-                    3 => (s >> 8) as usize % (CAP + 1),
-                    _ => CAP - (s >> 8) as usize % 3,
+                let len = match s % 23 {
+                    0..=3 => CAP,
+                    4..=7 => CAP + 1 + (s >> 8) as usize % 3,
+                    8..=11 => est.saturating_sub((s >> 8) as usize % 5),
+                    12..=15 => (s >> 8) as usize % (CAP + 1),
+                    16..=19 => CAP - (s >> 8) as usize % 3,
+                    // absurd lengths around the width of the length field (u16) and of usize
+                    20 => 65536 + (s >> 8) as usize % 70,
+                    21 => (1usize << 32) + (s >> 8) as usize % 70,
+                    _ => usize::MAX - (s >> 8) as usize % 70,
                 };
                 if len <= CAP {
                     est = len;
@@ -129,6 +133,15 @@ pub fn check_history(ops: &[VecOp], cfg: &Cfg, poison: u64, stats: &mut Stats) -
                    "ops": ops.iter().map(|o| format!("{:?}", o)).collect::<Vec<_>>(),
                    "model_a_len": model.a.len(), "observed_len": obs.map(|o| o.len)}),
         )
+    };
+    // absurd resize lengths would make the unbounded heap vector allocate gigabytes: they are part of
+    // the bounded vector's histories only
+    let filtered: Vec<VecOp>;
+    let ops: &[VecOp] = if bounded {
+        ops
+    } else {
+        filtered = ops.iter().filter(|o| !matches!(o, VecOp::Resize(n, _) if *n > 4096)).cloned().collect();
+        &filtered
     };
     let obs = match catch(|| (cfg.vec_history)(ops, poison)) {
         Ok(o) => o,
